@@ -125,8 +125,18 @@ WSend(w) == /\ lw[w] <= Len(logW[w]) /\ EW(w).ev = "send" /\ wtask[w] # <<>>
             /\ outbox' = [outbox EXCEPT ![w] = Append(@, EW(w))] /\ wtask' = [wtask EXCEPT ![w] = <<>>]
             /\ lw' = [lw EXCEPT ![w] = @ + 1]
             /\ UNCHANGED <<logM, logW, lm, inbox, chain, got, swapst, used, stats>>
-TraceNext == MSendTask \/ MDraw \/ MUpdate1 \/ MUpdate2 \/ MRecv \/ \E w \in W : WRecv(w) \/ WStep(w) \/ WSend(w)
+MAct == MSendTask \/ MDraw \/ MUpdate1 \/ MUpdate2 \/ MRecv
+WAct(w) == WRecv(w) \/ WStep(w) \/ WSend(w)
+TraceNextFull == MAct \/ \E w \in W : WAct(w)             \* every interleaving of the per-process logs
+\* Partial-order reduction.  A worker's event is determined by its own log, touches only its own chain, task, cursor and the tail /
+\* head of its two pipes, and can neither disable nor be disabled by an event of another process (the master only appends to inbox[w]
+\* and only pops outbox[w]).  So worker events commute with everything else: it is enough to let the lowest-numbered enabled worker
+\* move, and the master only when no worker can.  Every value chain[w] ever takes (ProbsBelong) and every choice of the master
+\* (pair inference) is still visited; the number of states becomes linear in the trace length instead of exponential in N.
+TraceNext == \/ \E w \in W : WAct(w) /\ \A v \in 1..(w - 1) : ~ENABLED WAct(v)
+             \/ MAct /\ \A v \in W : ~ENABLED WAct(v)
 TraceSpec == TraceInit /\ [][TraceNext]_vars
+TraceSpecFull == TraceInit /\ [][TraceNextFull]_vars
 \* C03 under exchanges: at every moment each chain's stored value belongs to its current point
 ProbsBelong == \A w \in W : chain[w].tp4 = Energy(chain[w].pos) * Beta4[w]
 RECURSIVE SumLw(_)
